@@ -79,6 +79,9 @@ func (jenny Schema) GenerateSchema(context languages.Context, schema *ast.Schema
 		definitions.Set(object.Name, jenny.objectToDefinition(object))
 	})
 
+	// foreign objects already converted, by SelfRef: a foreign type that (transitively) refers to itself
+	// would otherwise be collected again on every round and the loop would never end.
+	converted := make(map[string]struct{})
 	for {
 		if jenny.foreignObjects.Len() == 0 {
 			break
@@ -87,7 +90,12 @@ func (jenny Schema) GenerateSchema(context languages.Context, schema *ast.Schema
 		foreignObjects := jenny.foreignObjects
 		jenny.foreignObjects = orderedmap.New[string, ast.Object]()
 
-		foreignObjects.Iterate(func(_ string, foreignObject ast.Object) {
+		foreignObjects.Iterate(func(selfRef string, foreignObject ast.Object) {
+			if _, done := converted[selfRef]; done {
+				return
+			}
+			converted[selfRef] = struct{}{}
+
 			definitions.Set(foreignObject.Name, jenny.objectToDefinition(foreignObject))
 		})
 	}
